@@ -219,6 +219,7 @@ FL = {
     True: FlagParser.initialize(_TLS + ['--insecure-tls-interception'], plugins=[OptOut]),
     # the opting-out plugin between two plugins that leave do_intercept at its default: one "no" is enough, wherever it stands
     'three': FlagParser.initialize(_TLS, plugins=[Bystander0, OptOut, Bystander]),
+    'three_insecure': FlagParser.initialize(_TLS + ['--insecure-tls-interception'], plugins=[Bystander0, OptOut, Bystander]),
 }
 S_OUT = ['ok', 'verify', 'sslerror']
 C_OUT = ['ok', 'verify', 'sslerror', 'eof', 'pipe']
@@ -263,7 +264,7 @@ def intercept(h0: int, h1: int, so: int, co: int, cache: int, di: int, d0: int) 
     with concrete():
         env = envkit.new_env()
         env.upstream_factory = lambda addr: FakeTcpSocket(env.sock('upstream'))
-        h, cs = envkit.make_handler(FL['three'] if CFG.get('three') else FL[insecure], env)
+        h, cs = envkit.make_handler(FL[('three_insecure' if insecure else 'three') if CFG.get('three') else insecure], env)
     cs.inq.append(b'CONNECT ' + host + b':443 HTTP/1.1\r\n\r\n')
     try:
         td = run(h.handle_events([cs.fd], []))
@@ -429,6 +430,40 @@ def obligations(tier):
     for step in ('gen_public_key', 'gen_csr', 'sign_csr'):
         obs.append({'name': 'intercept.pki_fail.%s' % step, 'fn': 'intercept',
                     'cfg': {'insecure': False, 'so': 0, 'co': 0, 'di': 1, 'pki_fail': step}, 'timeout': 400})
+    if tier == 'thorough':
+        # full product of the dimensions the quick tier samples pairwise
+        seen = {tuple(sorted(o['cfg'].items())) for o in obs}
+        for hkind in ('name', 'v4', 'v6'):
+            for insecure in (False, True):
+                for three in (False, True):
+                    for so in (0, 1, 2):
+                        for di in (0, 1):
+                            if di == 0 and so != 0:
+                                continue
+                            for co in ((0, 1, 2, 3, 4) if (so == 0 and di == 1) else (0,)):
+                                for wr in ((False, True) if (so == 0 and di == 1 and co == 0) else (False,)):
+                                    cfg = {'insecure': insecure, 'so': so, 'co': co, 'di': di}
+                                    if hkind != 'name':
+                                        cfg['hostkind'] = hkind
+                                    if three:
+                                        cfg['three'] = True
+                                    if wr:
+                                        cfg['want_read'] = True
+                                    k = tuple(sorted(cfg.items()))
+                                    if k in seen:
+                                        continue
+                                    seen.add(k)
+                                    obs.append({'name': 'intercept.x.%s.%s.%s.server_%s.client_%s.%s%s' % (
+                                        hkind, 'insecure' if insecure else 'verify', 'three' if three else 'one', S_OUT[so], C_OUT[co],
+                                        'intercept' if di else 'optout', '.want_read' if wr else ''), 'fn': 'intercept', 'cfg': cfg, 'timeout': 600})
+                for step in ('gen_public_key', 'gen_csr', 'sign_csr'):
+                    if hkind == 'name' and not insecure:
+                        continue
+                    cfg = {'insecure': insecure, 'so': 0, 'co': 0, 'di': 1, 'pki_fail': step}
+                    if hkind != 'name':
+                        cfg['hostkind'] = hkind
+                    obs.append({'name': 'intercept.x.pki_fail.%s.%s.%s' % (step, hkind, 'insecure' if insecure else 'verify'), 'fn': 'intercept',
+                                'cfg': cfg, 'timeout': 600})
     return obs
 
 
@@ -438,7 +473,8 @@ META = {
                  'client-side handshake outcome {ok, verification error, SSL error, EOF, broken pipe}; --insecure-tls-interception on/off; a '
                  'plugin\'s do_intercept on/off (alone, and between two plugins with the default answer); certificate cache state symbolic (8 combinations of leaf/public key/CSR present); one symbolic '
                  'payload byte; SSLWantReadError (incomplete record) on both sides of an established intercepted session',
-        'thorough': 'same',
+        'thorough': 'same symbolic parameters, over the full product host kind {name, IPv4, IPv6} x insecure switch x {one, three} plugins x upstream handshake outcome x '
+                    'client handshake outcome x opt-out x SSLWantReadError, and a failing generation step for every host kind and both settings of the switch',
     },
     'outside': 'NOT ENCODABLE, outside the claim: that OpenSSL actually verifies the upstream chain/name, that the generated leaf really chains '
                'to the CA (openssl subprocesses are stubbed to record their arguments), real handshakes, expiry, disk cache contents. Claimed: '
